@@ -48,7 +48,7 @@ struct Recipe {
 	size_t ncyc = 28;
 	bool xdata = false;
 	// memory class
-	size_t memAw = 3, memW = 6; int memVariant = 0;
+	size_t memAw = 3, memW = 6; int memVariant = 0; std::string memRst;
 };
 
 std::string bitsOf(uint64_t v, size_t w) { std::string s; for (size_t i = std::max<size_t>(w, 1); i-- > 0;) s.push_back(((v >> i) & 1) ? '1' : '0'); return s; }
@@ -152,6 +152,7 @@ struct Gen {
 		int v = -1; for (int t = 0; t < 10 && v < 0; t++) { int x = pickVec(); if (grouped(x)) v = x; }
 		if (v < 0) return;
 		unsigned p = (unsigned) rng.below(4);
+		if (cls == "movable" && !noGroup && rng.chance(1, 2)) p = 2;
 		if (noGroup && nHints >= 2) return;
 		if (p == 0) { // re-convergent fan-out: hint on one branch only
 			Step f{.kind = rng.chance(1, 2) ? "addc" : "xorc", .w = w(v), .a = v}; f.k = rng.next() & maskOf(w(v)); int fi = add(f);
@@ -243,7 +244,7 @@ struct Gen {
 				bool wantRst = r.rmix == "all";
 				if (wantRst && !sv.rk) continue;
 				Step s{.kind = "negreg", .w = w(v), .a = v}; if (wantRst) s.rst = bitsOf(sv.rv, s.w); s.fl = (int) rng.below(2); add(s); nHints++; }
-			else if (c < 42 && !vecs.empty()) pattern(noGroup, nHints);
+			else if (c < (cls == "movable" ? 50u : 42u) && !vecs.empty()) pattern(noGroup, nHints);
 			else combStep();
 		}
 		if (nHints == 0) { int v = anyGroupedValue(); if (v >= 0) { add(Step{.kind = "stage", .w = w(v), .a = v}); nHints++; } }
@@ -315,7 +316,8 @@ void analyseRecipe(Recipe &r) {
 
 Recipe genMemory(Rng &rng) {
 	Recipe r; r.cls = "memory"; r.reset = rng.chance(1, 2) ? "sync" : "none"; r.rmix = "none"; r.ncyc = 20 + rng.below(16);
-	r.memAw = 2 + rng.below(2); r.memW = 2 + rng.below(6); r.memVariant = (int) rng.below(4);
+	r.memAw = 2 + rng.below(2); r.memW = 2 + rng.below(6); r.memVariant = (int) rng.below(8);
+	r.memRst = bitsOf(rng.chance(1, 3) ? 0 : rng.next() & maskOf(r.memW), r.memW);
 	r.ins = {InPin{.w = r.memAw}, InPin{.w = r.memW}, InPin{.w = r.memAw}, InPin{.w = 0}}; // raddr, data, waddr, we
 	return r;
 }
@@ -327,7 +329,7 @@ std::string toString(const Recipe &r, uint64_t k, uint64_t sub) {
 	o << '\n';
 	for (size_t i = 0; i < r.ins.size(); i++) o << "in " << i << " w=" << r.ins[i].w << " stall=" << r.ins[i].stall << '\n';
 	for (size_t g = 0; g < r.groups.size(); g++) { o << "grp " << g; for (auto &m : r.groups[g].mem) o << ' ' << m.pin << ':' << (m.rst.empty() ? "-" : m.rst); o << '\n'; }
-	if (r.cls == "memory") o << "mem aw=" << r.memAw << " w=" << r.memW << " variant=" << r.memVariant << '\n';
+	if (r.cls == "memory") o << "mem aw=" << r.memAw << " w=" << r.memW << " variant=" << r.memVariant << " rst=" << r.memRst << "\nout 0 step=0 w=" << r.memW << " dep=0 ffd=0 ureg=0\n";
 	for (size_t i = 0; i < r.steps.size(); i++) { const Step &s = r.steps[i];
 		o << "step " << i << ' ' << s.kind << " w=" << s.w << " a=" << s.a << " b=" << s.b << " c=" << s.c << " k=" << s.k << " rst=" << (s.rst.empty() ? "-" : s.rst)
 		  << " g=" << s.g << " m=" << s.m << " fl=" << s.fl << " dep=" << s.dep << " h=" << s.h << " live=" << s.live << '\n'; }
@@ -362,9 +364,11 @@ void buildMemory(const Recipe &r, Variant var, BuiltDesign &res) {
 	mem.setPowerOnStateZero();
 	mem.setType(MemType::MEDIUM, 1);
 	UInt rd = mem[raddr];
-	if (r.memVariant & 1) { IF (we) mem[waddr] = data; }
+	if (r.memVariant & 1) { IF (we) mem[waddr] = data; } else { IF (we & (waddr == 0)) mem[waddr] = data; }
 	UInt out = (r.memVariant & 2) ? UInt(rd ^ data) : UInt(rd);
-	out = reg(out, 0, {.allowRetimingBackward = true});
+	if (r.memVariant & 4) out = ~out;
+	UInt rv = vh::constU(r.memRst);
+	out = reg(out, rv, {.allowRetimingBackward = true});
 	auto p = pinOut(out).setName("out0"); res.b.outPins = {p.node()}; res.b.outWidths = {r.memW};
 }
 
